@@ -10,13 +10,13 @@ package cmd
 
 // C09: -i may be given several times and every occurrence is one pattern, taken literally (a string *array* flag, not a
 // comma-separated slice flag); -o is a plain string flag.
-//@ func NewBuildCmd
+//@ func NewBuildCmd effect
 //@   property C09 C10 C12 C16
 //@   ensures [input_flag_is_one_pattern_per_occurrence] exists k int :: old(tlen()) <= k && k < tlen()
 //@        && evIs(k, "github.com/spf13/pflag.(*FlagSet).StringArrayVarP") && evS1(k) == "input" && evS2(k) == "i"
 //@   ensures [output_flag_is_a_string] exists k int :: old(tlen()) <= k && k < tlen()
 //@        && evIs(k, "github.com/spf13/pflag.(*FlagSet).StringVarP") && evS1(k) == "output" && evS2(k) == "o"
-//@   ensures [each_flag_sets_its_own_variable] forall k int :: old(tlen()) <= k && k < tlen()
+//@   ensures_here [each_flag_sets_its_own_variable] forall k int :: old(tlen()) <= k && k < tlen()
 //@        && (evIs(k, "github.com/spf13/pflag.(*FlagSet).BoolVarP") || evIs(k, "github.com/spf13/pflag.(*FlagSet).StringVarP") || evIs(k, "github.com/spf13/pflag.(*FlagSet).StringArrayVarP")) ==>
 //@        (evS1(k) == "input" ==> evPtrIs(k, inputPatterns)) && (evS1(k) == "output" ==> evPtrIs(k, outputFile))
 //@        && (evS1(k) == "ignore-missing-params" ==> evPtrIs(k, ignoreMissingParams)) && (evS1(k) == "ignore-missing-services" ==> evPtrIs(k, ignoreMissingServices))
